@@ -191,6 +191,9 @@ func ExecOp(op Op, env *Env) *OpResult {
 	if base == "" {
 		base = RootPath(w)
 	}
+	if base == "<none>" {
+		base = "" // no location at all: the root must come from the supplied cache (pre-loaded by an earlier call)
+	}
 	var cache spec.ResolutionCache
 	switch op.Cache {
 	case "", "nil":
